@@ -359,7 +359,7 @@ pub fn run(args: &Args) -> i32 {
         b[(idx / 256) as usize] = (idx % 256) as u8;
         check_pwb(&b, loc, true);
     });
-    if thorough {
+    {
         // every subset of a 16-channel window of the sent mask (all 65536 subsets) at three window positions, odd and
         // even sample counts: data laid out by the reference encoder
         rep.run("sent-mask-window-subsets", 65536 * 3 * 2, 60, true, "sent mask = any subset (all 65536) of the readouts in a 16-wide window at {1..16, 33..48, 64..79} x requested_samples {3, 4}", |idx, loc| {
@@ -369,6 +369,8 @@ pub fn run(args: &Args) -> i32 {
             let p = mk_pwb(17 + d[1] as usize, (d[0] % 4) as u8, 3 + d[2] as u16, &ros, 0, d[0] % 4);
             check_pwb(&ref_pwb_encode(&p), loc, true);
         });
+    }
+    if thorough {
         // every pair of header bytes at every pair of values (two simultaneous deviations, complete over the header)
         let hp: Vec<(usize, usize)> = (0..52).flat_map(|i| (i + 1..52).map(move |j| (i, j))).collect();
         rep.run("header-byte-pairs-all-values", hp.len() as u64 * 65536, 60, true, "base packet with 3 channels: every unordered pair of the 52 header bytes (1326) x all 65536 value pairs", |idx, loc| {
